@@ -76,39 +76,7 @@ theorem runFile_printed_eq_followPrinted (O : Oracles) (qy : Query) (q : SelectS
     | panic s => simp [runFile, hn, hrl, hx, feedLines, followPrinted, failWith]
     | oracleMissing s => simp [runFile, hn, hrl, hx, feedLines, followPrinted, failWith]
 
-/-- `FollowFileExecutor::execute` for a statement without join: nothing is read when the limit is already reached
-(LIMIT 0), else every line is fed to the engine with update + result and the answers are printed by the follow
-loop -/
-def selectFollowRun (O : Oracles) (qy : Query) (single : Bool) (lines : List Line) : List String :=
-  if reachedLimit qy ({} : EngineState) then []
-  else followPrinted single (feedLines O qy [] true lines {}).1
-
 /-- a file whose lines are all readable -/
 def readableFile (lines : List Line) : List FileLine := lines.map (fun l => { readable := true, line := l })
-
-/-- **follow mode prints the batch output** (non-aggregate statement, no join): over the same lines the follow
-executor prints exactly the records of the batch run -/
-theorem followRun_eq_batch (O : Oracles) (qy : Query) (q : SelectStmt) (hq : qy.stmt = .select q) (hj : qy.join = none)
-    (lines : List Line) :
-    selectFollowRun O qy false lines = (runBatch O qy [] [readableFile lines] none).printed := by
-  have hidx : joinIndexOf qy [] = .ok [] := by simp [joinIndexOf, hj]
-  rw [runBatch_select_out O qy q hq [] _ [] hidx]
-  unfold selectFollowRun
-  by_cases h0 : reachedLimit qy ({} : EngineState) = true
-  · simp [runFiles, h0]
-  · have h0' : reachedLimit qy ({} : LoopState).es = false := by simpa using h0
-    have hr : ∀ fl ∈ readableFile lines, fl.readable = true := by
-      intro fl hfl
-      obtain ⟨l, _, rfl⟩ := List.mem_map.1 hfl
-      rfl
-    have hp := runFile_printed_eq_followPrinted O qy q hq [] (readableFile lines) hr {} h0'
-    have hm : (readableFile lines).map (·.line) = lines := by
-      simp [readableFile, List.map_map, Function.comp_def]
-    rw [hm] at hp
-    simp only [h0, Bool.false_eq_true, if_false]
-    simp only [runFiles, h0', Bool.or_self, Bool.false_eq_true, if_false]
-    split
-    · rw [hp]; rfl
-    · rw [hp]; rfl
 
 end Sqlgrep
